@@ -54,8 +54,13 @@ def live_region(f, c):
         return set(), g
     drops = set(bb for bb in range(f.nblocks()) if f.term(bb)["k"] == "drop" and f.term(bb)["place"] == [g] and not f.is_cleanup(bb))
     # the guard moved by value into a call (mem::drop(guard), or handed to a consumer) ends its live range here
+    # (MIR moves the guard into a temporary first: `_t = move guard; drop(move _t)`)
+    moved = {g}
+    for bb, s_ in f.stmts():
+        if s_.get("k") == "use" and len(s_["d"]) == 1 and s_["o"] and s_["o"][0].get("p") == [g] and s_["o"][0].get("m") and f.locals[s_["d"][0]] == f.locals[g]:
+            moved.add(s_["d"][0])
     for x in f.live_calls():
-        if any("p" in a and a["p"] == [g] and a.get("m") for a in x.args) and x is not c:
+        if any("p" in a and len(a["p"]) == 1 and a["p"][0] in moved and a.get("m") for a in x.args) and x is not c:
             if "to" in x.t:
                 drops.add(x.t["to"])
     drops = frozenset(drops)
